@@ -247,6 +247,9 @@ struct Scenario {
     rounds: usize,
     /// responsible range in force on node A (set the way the driver's periodic estimate sets it), if any
     a_range: Option<ant_evm::U256>,
+    /// issues of one kind recorded at A against B before the first round (fewer than the three that make a peer bad:
+    /// B stays an honest replication target)
+    issues_against_b: usize,
 }
 
 fn scenarios() -> Vec<Scenario> {
@@ -272,26 +275,28 @@ fn scenarios() -> Vec<Scenario> {
     let covers_record_not_target = dist(&a_id) + ant_evm::U256::from(1u8);
     assert!(covers_record_not_target < dist(&b_id));
     vec![
-        Scenario { name: "chunk on A only; A's responsible range covers the chunk but is narrower than the chunk's distance from B", nodes: 2, seeds: vec![(0, rec::chunk_record(&gap_chunk))], key: rec::chunk_key(&gap_chunk), kind: "chunk", first_write_pending: false, late: vec![], spacing: 120, rounds: 3, a_range: Some(covers_record_not_target) },
-        Scenario { name: "chunk on A only; A's responsible range is the narrowest possible", nodes: 2, seeds: vec![(0, rec::chunk_record(&chunk))], key: rec::chunk_key(&chunk), kind: "chunk", first_write_pending: false, late: vec![], spacing: 120, rounds: 3, a_range: Some(ant_evm::U256::from(1u8)) },
-        Scenario { name: "register ops{0} on A, ops{1} on B; A's responsible range is the narrowest possible", nodes: 2, seeds: vec![(0, rec::reg_record(&fx.with_ops(&[0]))), (1, rec::reg_record(&fx.with_ops(&[1])))], key: rec::reg_key(&fx.base), kind: "register", first_write_pending: false, late: vec![], spacing: 120, rounds: 3, a_range: Some(ant_evm::U256::from(1u8)) },
-        Scenario { name: "chunk on A only", nodes: 2, seeds: vec![(0, rec::chunk_record(&chunk))], key: rec::chunk_key(&chunk), kind: "chunk", first_write_pending: false, late: vec![], spacing: 120, rounds: 3, a_range: None },
-        Scenario { name: "chunk on A only, 3 nodes", nodes: 3, seeds: vec![(0, rec::chunk_record(&chunk))], key: rec::chunk_key(&chunk), kind: "chunk", first_write_pending: false, late: vec![], spacing: 120, rounds: 3, a_range: None },
-        Scenario { name: "register ops{0} on A, ops{1} on B", nodes: 2, seeds: vec![(0, rec::reg_record(&fx.with_ops(&[0]))), (1, rec::reg_record(&fx.with_ops(&[1])))], key: rec::reg_key(&fx.base), kind: "register", first_write_pending: false, late: vec![], spacing: 120, rounds: 3, a_range: None },
-        Scenario { name: "register ops{0,1} on A, ops{1} on B", nodes: 2, seeds: vec![(0, rec::reg_record(&fx.with_ops(&[0, 1]))), (1, rec::reg_record(&fx.with_ops(&[1])))], key: rec::reg_key(&fx.base), kind: "register", first_write_pending: false, late: vec![], spacing: 120, rounds: 3, a_range: None },
-        Scenario { name: "transactions [t1] on A, [t2] on B", nodes: 2, seeds: vec![(0, rec::txs_record(tk.clone(), &[t[0].clone()])), (1, rec::txs_record(tk.clone(), &[t[1].clone()]))], key: tk.clone(), kind: "transaction", first_write_pending: false, late: vec![], spacing: 120, rounds: 3, a_range: None },
-        Scenario { name: "transactions [t1] on A, [t2] on B, [t3] on C", nodes: 3, seeds: vec![(0, rec::txs_record(tk.clone(), &[t[0].clone()])), (1, rec::txs_record(tk.clone(), &[t[1].clone()])), (2, rec::txs_record(tk.clone(), &[t[2].clone()]))], key: tk.clone(), kind: "transaction", first_write_pending: false, late: vec![], spacing: 120, rounds: 3, a_range: None },
-        Scenario { name: "scratchpad c=1 on A, c=3 on B", nodes: 2, seeds: vec![(0, rec::pad_record(&p1)), (1, rec::pad_record(&p3))], key: rec::pad_key(&p1), kind: "scratchpad", first_write_pending: false, late: vec![], spacing: 120, rounds: 3, a_range: None },
-        Scenario { name: "scratchpad c=3 on A only", nodes: 2, seeds: vec![(0, rec::pad_record(&p3))], key: rec::pad_key(&p3), kind: "scratchpad", first_write_pending: false, late: vec![], spacing: 120, rounds: 3, a_range: None },
+        Scenario { name: "chunk on A only; A's responsible range covers the chunk but is narrower than the chunk's distance from B", nodes: 2, seeds: vec![(0, rec::chunk_record(&gap_chunk))], key: rec::chunk_key(&gap_chunk), kind: "chunk", first_write_pending: false, late: vec![], spacing: 120, rounds: 3, a_range: Some(covers_record_not_target), issues_against_b: 0 },
+        Scenario { name: "chunk on A only; A's responsible range is the narrowest possible", nodes: 2, seeds: vec![(0, rec::chunk_record(&chunk))], key: rec::chunk_key(&chunk), kind: "chunk", first_write_pending: false, late: vec![], spacing: 120, rounds: 3, a_range: Some(ant_evm::U256::from(1u8)), issues_against_b: 0 },
+        Scenario { name: "register ops{0} on A, ops{1} on B; A's responsible range is the narrowest possible", nodes: 2, seeds: vec![(0, rec::reg_record(&fx.with_ops(&[0]))), (1, rec::reg_record(&fx.with_ops(&[1])))], key: rec::reg_key(&fx.base), kind: "register", first_write_pending: false, late: vec![], spacing: 120, rounds: 3, a_range: Some(ant_evm::U256::from(1u8)), issues_against_b: 0 },
+        Scenario { name: "chunk on A only; A has recorded one transient issue against B", nodes: 2, seeds: vec![(0, rec::chunk_record(&chunk))], key: rec::chunk_key(&chunk), kind: "chunk", first_write_pending: false, late: vec![], spacing: 120, rounds: 3, a_range: None, issues_against_b: 1 },
+        Scenario { name: "register ops{0} on A, ops{1} on B; A has recorded two transient issues against B", nodes: 2, seeds: vec![(0, rec::reg_record(&fx.with_ops(&[0]))), (1, rec::reg_record(&fx.with_ops(&[1])))], key: rec::reg_key(&fx.base), kind: "register", first_write_pending: false, late: vec![], spacing: 120, rounds: 3, a_range: None, issues_against_b: 2 },
+        Scenario { name: "chunk on A only", nodes: 2, seeds: vec![(0, rec::chunk_record(&chunk))], key: rec::chunk_key(&chunk), kind: "chunk", first_write_pending: false, late: vec![], spacing: 120, rounds: 3, a_range: None, issues_against_b: 0 },
+        Scenario { name: "chunk on A only, 3 nodes", nodes: 3, seeds: vec![(0, rec::chunk_record(&chunk))], key: rec::chunk_key(&chunk), kind: "chunk", first_write_pending: false, late: vec![], spacing: 120, rounds: 3, a_range: None, issues_against_b: 0 },
+        Scenario { name: "register ops{0} on A, ops{1} on B", nodes: 2, seeds: vec![(0, rec::reg_record(&fx.with_ops(&[0]))), (1, rec::reg_record(&fx.with_ops(&[1])))], key: rec::reg_key(&fx.base), kind: "register", first_write_pending: false, late: vec![], spacing: 120, rounds: 3, a_range: None, issues_against_b: 0 },
+        Scenario { name: "register ops{0,1} on A, ops{1} on B", nodes: 2, seeds: vec![(0, rec::reg_record(&fx.with_ops(&[0, 1]))), (1, rec::reg_record(&fx.with_ops(&[1])))], key: rec::reg_key(&fx.base), kind: "register", first_write_pending: false, late: vec![], spacing: 120, rounds: 3, a_range: None, issues_against_b: 0 },
+        Scenario { name: "transactions [t1] on A, [t2] on B", nodes: 2, seeds: vec![(0, rec::txs_record(tk.clone(), &[t[0].clone()])), (1, rec::txs_record(tk.clone(), &[t[1].clone()]))], key: tk.clone(), kind: "transaction", first_write_pending: false, late: vec![], spacing: 120, rounds: 3, a_range: None, issues_against_b: 0 },
+        Scenario { name: "transactions [t1] on A, [t2] on B, [t3] on C", nodes: 3, seeds: vec![(0, rec::txs_record(tk.clone(), &[t[0].clone()])), (1, rec::txs_record(tk.clone(), &[t[1].clone()])), (2, rec::txs_record(tk.clone(), &[t[2].clone()]))], key: tk.clone(), kind: "transaction", first_write_pending: false, late: vec![], spacing: 120, rounds: 3, a_range: None, issues_against_b: 0 },
+        Scenario { name: "scratchpad c=1 on A, c=3 on B", nodes: 2, seeds: vec![(0, rec::pad_record(&p1)), (1, rec::pad_record(&p3))], key: rec::pad_key(&p1), kind: "scratchpad", first_write_pending: false, late: vec![], spacing: 120, rounds: 3, a_range: None, issues_against_b: 0 },
+        Scenario { name: "scratchpad c=3 on A only", nodes: 2, seeds: vec![(0, rec::pad_record(&p3))], key: rec::pad_key(&p3), kind: "scratchpad", first_write_pending: false, late: vec![], spacing: 120, rounds: 3, a_range: None, issues_against_b: 0 },
         // A has accepted its copy but the disk write is still pending when B's advertisement arrives
-        Scenario { name: "transactions [t1] on A (write pending), [t2] on B", nodes: 2, seeds: vec![(0, rec::txs_record(tk.clone(), &[t[0].clone()])), (1, rec::txs_record(tk.clone(), &[t[1].clone()]))], key: tk.clone(), kind: "transaction", first_write_pending: true, late: vec![], spacing: 120, rounds: 3, a_range: None },
-        Scenario { name: "register ops{0} on A (write pending), ops{1} on B", nodes: 2, seeds: vec![(0, rec::reg_record(&fx.with_ops(&[0]))), (1, rec::reg_record(&fx.with_ops(&[1])))], key: rec::reg_key(&fx.base), kind: "register", first_write_pending: true, late: vec![], spacing: 120, rounds: 3, a_range: None },
-        Scenario { name: "chunk on A only (write pending)", nodes: 2, seeds: vec![(0, rec::chunk_record(&chunk))], key: rec::chunk_key(&chunk), kind: "chunk", first_write_pending: true, late: vec![], spacing: 120, rounds: 3, a_range: None },
+        Scenario { name: "transactions [t1] on A (write pending), [t2] on B", nodes: 2, seeds: vec![(0, rec::txs_record(tk.clone(), &[t[0].clone()])), (1, rec::txs_record(tk.clone(), &[t[1].clone()]))], key: tk.clone(), kind: "transaction", first_write_pending: true, late: vec![], spacing: 120, rounds: 3, a_range: None, issues_against_b: 0 },
+        Scenario { name: "register ops{0} on A (write pending), ops{1} on B", nodes: 2, seeds: vec![(0, rec::reg_record(&fx.with_ops(&[0]))), (1, rec::reg_record(&fx.with_ops(&[1])))], key: rec::reg_key(&fx.base), kind: "register", first_write_pending: true, late: vec![], spacing: 120, rounds: 3, a_range: None, issues_against_b: 0 },
+        Scenario { name: "chunk on A only (write pending)", nodes: 2, seeds: vec![(0, rec::chunk_record(&chunk))], key: rec::chunk_key(&chunk), kind: "chunk", first_write_pending: true, late: vec![], spacing: 120, rounds: 3, a_range: None, issues_against_b: 0 },
         // records accepted after the first round, with rounds 31 s apart (inside the 45 s per-target throttle, outside the 30 s
         // per-node one — the rhythm of a node whose routing table keeps changing) and 46 s apart
-        Scenario { name: "chunk on A, a second chunk on A after round 1 (rounds 31 s apart)", nodes: 2, seeds: vec![(0, rec::chunk_record(&chunk))], key: rec::chunk_key(&chunk2), kind: "chunk", first_write_pending: false, late: vec![(0, rec::chunk_record(&chunk2))], spacing: 31, rounds: 6, a_range: None },
-        Scenario { name: "chunk on A, a second chunk on A after round 1 (rounds 46 s apart)", nodes: 2, seeds: vec![(0, rec::chunk_record(&chunk))], key: rec::chunk_key(&chunk2), kind: "chunk", first_write_pending: false, late: vec![(0, rec::chunk_record(&chunk2))], spacing: 46, rounds: 4, a_range: None },
-        Scenario { name: "register ops{0} on A and B, ops{0,1} accepted by A after round 1 (rounds 31 s apart)", nodes: 2, seeds: vec![(0, rec::reg_record(&fx.with_ops(&[0]))), (1, rec::reg_record(&fx.with_ops(&[0])))], key: rec::reg_key(&fx.base), kind: "register", first_write_pending: false, late: vec![(0, rec::reg_record(&fx.with_ops(&[0, 1])))], spacing: 31, rounds: 6, a_range: None },
+        Scenario { name: "chunk on A, a second chunk on A after round 1 (rounds 31 s apart)", nodes: 2, seeds: vec![(0, rec::chunk_record(&chunk))], key: rec::chunk_key(&chunk2), kind: "chunk", first_write_pending: false, late: vec![(0, rec::chunk_record(&chunk2))], spacing: 31, rounds: 6, a_range: None, issues_against_b: 0 },
+        Scenario { name: "chunk on A, a second chunk on A after round 1 (rounds 46 s apart)", nodes: 2, seeds: vec![(0, rec::chunk_record(&chunk))], key: rec::chunk_key(&chunk2), kind: "chunk", first_write_pending: false, late: vec![(0, rec::chunk_record(&chunk2))], spacing: 46, rounds: 4, a_range: None, issues_against_b: 0 },
+        Scenario { name: "register ops{0} on A and B, ops{0,1} accepted by A after round 1 (rounds 31 s apart)", nodes: 2, seeds: vec![(0, rec::reg_record(&fx.with_ops(&[0]))), (1, rec::reg_record(&fx.with_ops(&[0])))], key: rec::reg_key(&fx.base), kind: "register", first_write_pending: false, late: vec![(0, rec::reg_record(&fx.with_ops(&[0, 1])))], spacing: 31, rounds: 6, a_range: None, issues_against_b: 0 },
     ]
 }
 
@@ -367,6 +372,19 @@ fn run_scenario(run: &Run, sc: &Scenario, bound: usize, rounds: usize) {
             }
             if let Some(r) = sc.a_range {
                 cl.nodes[0].d.driver.verif_set_responsible_range(r);
+            }
+            for _ in 0..sc.issues_against_b {
+                let b = cl.ids[1];
+                let _ = cl.nodes[0].d.handle_local(ant_networking::verif_hooks::LocalSwarmCmd::RecordNodeIssue { peer_id: b, issue: ant_networking::NodeIssue::ReplicationFailure });
+                cl.nodes[0].d.settle();
+            }
+            if sc.issues_against_b > 0 {
+                // the premise of the scenario: B is still a peer A knows and does not consider bad
+                let b = cl.ids[1];
+                let issues = cl.nodes[0].d.driver.verif_node_issues(&b);
+                if issues.1 {
+                    run.machinery_error("C09: fewer than three issues made the neighbour a bad node — the scenario's premise does not hold");
+                }
             }
             // nodes that hold the record under sc.key by an accepted upload (they must advertise it)
             let seeded: Vec<usize> = sc.seeds.iter().chain(sc.late.iter()).filter(|(_, r)| r.key == sc.key).map(|(n, _)| *n).collect();
@@ -514,7 +532,7 @@ fn full_node_divergence(run: &Run, bound: usize) {
         ("full node A (capacity 2) whose farthest record is a transaction set that B holds with another entry", "transaction", tk.clone(), rec::txs_record(tk.clone(), &[t[0].clone()]), rec::txs_record(tk.clone(), &[t[1].clone()])),
     ];
     for (name, kind, key, on_a, on_b) in cases {
-        let sc = Scenario { name, nodes: 2, seeds: vec![(0, on_a.clone()), (1, on_b.clone())], key: key.clone(), kind, first_write_pending: false, late: vec![], spacing: 120, rounds: 3, a_range: None };
+        let sc = Scenario { name, nodes: 2, seeds: vec![(0, on_a.clone()), (1, on_b.clone())], key: key.clone(), kind, first_write_pending: false, late: vec![], spacing: 120, rounds: 3, a_range: None, issues_against_b: 0 };
         let want = expected_converged(&sc);
         explore(
             run,
